@@ -569,8 +569,10 @@ def __Solver_2(simu: "_Simu", problemType: "ProblemType"):
     A = A.tolil()
     b = b.tolil()
 
-    dofs_Dirichlet = simu.Bc_dofs_Dirichlet(problemType)
-    values_Dirichlet = simu.Bc_values_Dirichlet(problemType)
+    # one multiplier per constrained dof: x holds the prescribed values
+    # (entries on the same dof are summed, as in __Solver_1)
+    dofs_Dirichlet = np.unique(simu.Bc_dofs_Dirichlet(problemType)).astype(int)
+    values_Dirichlet = x.toarray().ravel()[dofs_Dirichlet]
 
     list_Bc_Lagrange = simu.Bc_Lagrange
 
